@@ -44,6 +44,8 @@ const (
 	AFarLoad               // acc += page A, cell B                      (same)
 	AReaddir               // fd_readdir(3, buf, len=A, cookie=B): acc += errno*1000 (WASI atoms, C11 only)
 	AHost2                 // (r0,r1) = host2(acc): a host function with more results than parameters; acc = r0 + r1
+	AClock                 // clock_time_get(A: 0 realtime, 1 monotonic): acc += errno*1000 + low 32 bits of the reading (WASI atoms, C11 only)
+	ARandom                // random_get(4 bytes): acc += errno*1000 + the word (WASI atoms, C11 only)
 )
 
 const (
@@ -81,7 +83,7 @@ type Atom struct {
 }
 
 func (a Atom) String() string {
-	n := []string{"store", "storeacc", "loadacc", "gadd", "call", "callimp", "calli", "host", "trap", "grow", "rec", "tableset", "exit", "meminit", "datadrop", "tableinit", "elemdrop", "tailcall", "stdout", "open", "close", "callgref", "atomicadd", "wide", "farstore", "farload", "readdir", "host2"}[a.K]
+	n := []string{"store", "storeacc", "loadacc", "gadd", "call", "callimp", "calli", "host", "trap", "grow", "rec", "tableset", "exit", "meminit", "datadrop", "tableinit", "elemdrop", "tailcall", "stdout", "open", "close", "callgref", "atomicadd", "wide", "farstore", "farload", "readdir", "host2", "clock", "random"}[a.K]
 	return fmt.Sprintf("%s(%d,%d)", n, a.A, a.B)
 }
 
@@ -166,7 +168,7 @@ func Generate(t *tape.Tape, o Opts) *Plan {
 		for j := 0; j < na; j++ {
 			val++
 			// weights: store, storeacc, loadacc, gadd, call, callimp, calli, host, trap, grow, rec, tableset, exit, meminit, datadrop, tableinit, elemdrop, tailcall
-			w := []int{4, 3, 2, 3, 4, 0, 0, 0, 0, 0, 0, 0, 0, 0, 0, 0, 0, 0, 0, 0, 0, 0, 0, 0, 0, 0, 0, 0}
+			w := []int{4, 3, 2, 3, 4, 0, 0, 0, 0, 0, 0, 0, 0, 0, 0, 0, 0, 0, 0, 0, 0, 0, 0, 0, 0, 0, 0, 0, 0, 0}
 			if o.Wide {
 				w[AWide] = 2
 			}
@@ -175,6 +177,7 @@ func Generate(t *tape.Tape, o Opts) *Plan {
 			}
 			if o.WASI {
 				w[AStdout], w[AOpen], w[AClose], w[AReaddir] = 3, 2, 2, 3
+				w[AClock], w[ARandom] = 2, 1
 				if o.ReaddirHeavy {
 					w[AReaddir] = 14
 				}
@@ -251,6 +254,8 @@ func Generate(t *tape.Tape, o Opts) *Plan {
 				a.A, a.B = int32(t.Choose(NCells)), int32(1+t.Choose(9))
 			case AGrow:
 				a.A = int32(t.Choose(3))
+			case AClock:
+				a.A = int32(t.Choose(2))
 			case AReaddir:
 				// buffer sizes from "not even one header" to several entries; cookies computed, not returned
 				a.A, a.B = int32(tape.Pick(t, []int{24, 40, 64, 100})), int32(t.Choose(3))
@@ -294,6 +299,7 @@ type Layout struct {
 	Host, ProcExit             uint32
 	FdWrite, PathOpen, FdClose uint32
 	FdReaddir                  uint32
+	ClockTimeGet, RandomGet    uint32
 	Imp0                       uint32 // first imported plan function
 	Host2                      uint32 // env.h2, when the plan has it
 	F0                         uint32 // first plan function
@@ -305,8 +311,8 @@ type Layout struct {
 }
 
 func (p *Plan) Layout() Layout {
-	l := Layout{Host: 0, ProcExit: 1, FdWrite: 2, PathOpen: 3, FdClose: 4, FdReaddir: 5, Imp0: 6}
-	l.F0 = 6 + uint32(p.NImports)
+	l := Layout{Host: 0, ProcExit: 1, FdWrite: 2, PathOpen: 3, FdClose: 4, FdReaddir: 5, ClockTimeGet: 6, RandomGet: 7, Imp0: 8}
+	l.F0 = 8 + uint32(p.NImports)
 	if p.Host2 {
 		l.Host2 = l.F0
 		l.F0++
@@ -334,6 +340,8 @@ func (p *Plan) Encode() []byte {
 	m.ImportFunc("wasi_snapshot_preview1", "path_open", []wasmb.ValType{w32, w32, w32, w32, w32, w64, w64, w32, w32}, i32)
 	m.ImportFunc("wasi_snapshot_preview1", "fd_close", i32, i32)
 	m.ImportFunc("wasi_snapshot_preview1", "fd_readdir", []wasmb.ValType{w32, w32, w32, w64, w32}, i32)
+	m.ImportFunc("wasi_snapshot_preview1", "clock_time_get", []wasmb.ValType{w32, w64, w32}, i32)
+	m.ImportFunc("wasi_snapshot_preview1", "random_get", []wasmb.ValType{w32, w32}, i32)
 	for i := 0; i < p.NImports; i++ {
 		m.ImportFunc(p.ImportFrom, fmt.Sprintf("f%d", i), i32, i32)
 	}
@@ -412,6 +420,12 @@ func (p *Plan) Encode() []byte {
 				rd(256)
 			case AHost2:
 				c.LocalGet(1).Call(l.Host2).I32Add().LocalSet(1)
+			case AClock:
+				c.I32Const(a.A).I64Const(1).I32Const(0x3e0).Call(l.ClockTimeGet).I32Const(1000).I32Mul().
+					I32Const(0x3e0).I32Load(0).I32Add().LocalGet(1).I32Add().LocalSet(1)
+			case ARandom:
+				c.I32Const(0x3d0).I32Const(4).Call(l.RandomGet).I32Const(1000).I32Mul().
+					I32Const(0x3d0).I32Load(0).I32Add().LocalGet(1).I32Add().LocalSet(1)
 			case AFarStore:
 				c.I32Const(FarAddr(a.A, a.B)).LocalGet(1).I32Const(1).I32Or().I32Store(0)
 			case AFarLoad:
